@@ -29,8 +29,8 @@ ASSUMPTIONS = [
 
 
 # -- mutable filter encoding --------------------------------------------------
-COLS = ['params', 'batch_stats', 'cache', 'counters', 'intermediates', 'aux',
-        'perturbations', 'unused']
+COLS = ['params', 'batch_stats', 'cache', 'counters', 'stats',
+        'intermediates', 'aux', 'perturbations', 'unused']
 
 
 def filter_strategy():
